@@ -719,6 +719,13 @@ class Program:
             self._canonicalise_calls()
         self.new_params_specialised = 0
         self.default_args_dropped = 0
+        self.helpers_inlined = 0
+        if os.environ.get("VERIF_NO_HELPER_CANON") != "1" and self.reference is not None:
+            for _round in range(3):
+                before = self.helpers_inlined
+                self._inline_new_helpers()
+                if self.helpers_inlined == before:
+                    break
         if os.environ.get("VERIF_NO_DEFAULT_CANON") != "1":
             for _round in range(4):
                 before = (self.new_params_specialised, self.default_args_dropped)
@@ -832,6 +839,223 @@ class Program:
             c.args.append(k.value)
             c.keywords.remove(k)
         return c
+
+
+    # ------------------------------------------------------------------ helper inlining
+    def _inline_new_helpers(self):
+        """
+        A function that today's tree does not have (not in sa/reference.json) and that is simple enough - no decorator other than staticmethod / classmethod, no
+        *args / **kwargs, no yield, no nested function, no recursion, at most one return and that one last - is read at each call that stands alone in a statement
+        (`x = h(..)`, `return h(..)`, `h(..)`) as its body with the arguments put in for the parameters: the extracted helper of a refactoring goes back where it
+        came from, and the rules see the code in the shape they were written for.  The definition itself stays.
+        """
+        import copy
+        ref = self.reference.get("signatures", {})
+
+        def eligible(h):
+            n = h.node
+            if h.qualname in ref or h.kind in ("getter", "setter") or n.name.startswith("__"):
+                return False
+            if any(not (isinstance(d, ast.Name) and d.id in ("staticmethod", "classmethod")) for d in n.decorator_list):
+                return False
+            a = n.args
+            if a.vararg is not None or a.kwarg is not None or a.posonlyargs:
+                return False
+            body = body_nodoc(n)
+            if not body or len(body) > 40:
+                return False
+            for x in ast.walk(n):
+                if x is not n and isinstance(x, (ast.FunctionDef, ast.AsyncFunctionDef, ast.Lambda, ast.ClassDef, ast.Yield, ast.YieldFrom, ast.Await, ast.Global, ast.Nonlocal)):
+                    return False
+                if isinstance(x, ast.Call) and ((isinstance(x.func, ast.Name) and x.func.id == n.name) or (isinstance(x.func, ast.Attribute) and x.func.attr == n.name)):
+                    return False
+            rets = [x for x in ast.walk(n) if isinstance(x, ast.Return)]
+            if len(rets) > 1 or (rets and rets[0] is not body[-1]):
+                return False
+            return True
+
+        helpers = {id(h.node): h for h in self.all_functions() if eligible(h)}
+        if not helpers:
+            return
+        counter = [self.helpers_inlined]
+
+        def expand(m, cls, g, call, kind, target_stmt):
+            h, skip = self._resolve_callee(m, cls, call)
+            if h is None and isinstance(call.func, ast.Attribute) and isinstance(call.func.value, ast.Name) and cls is None:
+                return None
+            if h is None and isinstance(call.func, ast.Attribute) and isinstance(call.func.value, ast.Name):
+                # ClassName._helper(...) (static helper called through the class)
+                try:
+                    t = self.resolve_name(m, call.func.value.id)
+                except Exception:
+                    t = None
+                if isinstance(t, ClassInfo):
+                    hh = self.lookup_method(t, call.func.attr) if self.mro(t) is not None else t.methods.get(call.func.attr)
+                    if hh is not None and hh.kind == "staticmethod":
+                        h, skip = hh, 0
+            if h is None or id(h.node) not in helpers or h.node is g.node:
+                return None
+            if any(isinstance(a, ast.Starred) for a in call.args) or any(k.arg is None for k in call.keywords):
+                return None
+            a = h.node.args
+            params = [x.arg for x in a.args]
+            recv = None
+            if skip:
+                recv, params = params[0], params[1:]
+                if not (isinstance(call.func, ast.Attribute) and isinstance(call.func.value, ast.Name) and call.func.value.id == recv):
+                    return None
+            if len(call.args) > len(params):
+                return None
+            bind = dict(zip(params, call.args))
+            for k in call.keywords:
+                if k.arg in bind or k.arg not in params + [x.arg for x in a.kwonlyargs]:
+                    return None
+                bind[k.arg] = k.value
+            nd = len(a.defaults)
+            dm = {x.arg: d for x, d in zip(a.args[len(a.args) - nd:], a.defaults)}
+            dm.update({x.arg: d for x, d in zip(a.kwonlyargs, a.kw_defaults) if d is not None})
+            for p_ in params + [x.arg for x in a.kwonlyargs]:
+                if p_ not in bind:
+                    if p_ not in dm:
+                        return None
+                    bind[p_] = dm[p_]
+            counter[0] += 1
+            tag = "__h%d" % counter[0]
+            body = [copy.deepcopy(x) for x in body_nodoc(h.node)]
+            stored = {n.id for b in body for n in ast.walk(b) if isinstance(n, ast.Name) and isinstance(n.ctx, (ast.Store, ast.Del))}
+            locals_ = stored | set(bind)
+
+            def simple(e):
+                # an expression without calls: evaluating it again where the parameter is read gives the same object / value
+                if isinstance(e, (ast.Name, ast.Constant)):
+                    return True
+                if isinstance(e, ast.Attribute):
+                    return simple(e.value)
+                if isinstance(e, ast.Subscript):
+                    return simple(e.value) and simple(e.slice)
+                if isinstance(e, ast.Slice):
+                    return all(x is None or simple(x) for x in (e.lower, e.upper, e.step))
+                if isinstance(e, (ast.Tuple, ast.List)):
+                    return all(simple(x) for x in e.elts)
+                if isinstance(e, ast.BinOp):
+                    return simple(e.left) and simple(e.right)
+                if isinstance(e, ast.UnaryOp):
+                    return simple(e.operand)
+                if isinstance(e, ast.Compare):
+                    return simple(e.left) and all(simple(x) for x in e.comparators)
+                return False
+            direct = {p_: v for p_, v in bind.items() if p_ not in stored and simple(v)}
+            # a parameter the helper rebinds may go on living in the caller's own variable when that variable is dead after the call (`return h(out, dtype)`)
+            reuse = {}
+
+            def dead_after(name):
+                """the caller's variable is not read after the call statement (and the call is not inside a loop of the caller)"""
+                if kind == "return":
+                    return True
+                if kind == "assign" and any(isinstance(t_, ast.Name) and t_.id == name for t_ in target_stmt.targets):
+                    return True
+                end = getattr(target_stmt, "end_lineno", None) or target_stmt.lineno
+                for lp in ast.walk(g.node):
+                    if isinstance(lp, (ast.For, ast.While)) and any(x is target_stmt for x in ast.walk(lp)):
+                        return False
+                return not any(isinstance(n, ast.Name) and n.id == name and isinstance(n.ctx, ast.Load) and getattr(n, "lineno", 0) > end for n in ast.walk(g.node))
+            for p_, v in bind.items():
+                if p_ in stored and isinstance(v, ast.Name) and v.id not in reuse.values() and v.id not in (locals_ - {p_}) and dead_after(v.id):
+                    reuse[p_] = v.id
+            pre = []
+            for p_, v in bind.items():
+                if p_ not in direct and p_ not in reuse:
+                    pre.append(ast.Assign(targets=[ast.Name(id=p_ + tag, ctx=ast.Store())], value=copy.deepcopy(v)))
+
+            class Ren(ast.NodeTransformer):
+                def visit_Name(self_, n):
+                    if n.id in direct and isinstance(n.ctx, ast.Load):
+                        return copy.deepcopy(direct[n.id])
+                    if n.id in reuse:
+                        return ast.copy_location(ast.Name(id=reuse[n.id], ctx=n.ctx), n)
+                    if n.id in locals_ and n.id != recv:
+                        return ast.copy_location(ast.Name(id=n.id + tag, ctx=n.ctx), n)
+                    return n
+            body = [Ren().visit(b) for b in body]
+            out = pre + body
+            last = out[-1] if out else None
+            retval = None
+            if isinstance(last, ast.Return):
+                out.pop()
+                retval = last.value
+            if kind == "assign" and retval is not None and len(target_stmt.targets) == 1:
+                # results the helper built in locals of its own are built in the caller's targets directly: `a, b = h(..)` with `return (s, c)` -> s, c are a, b
+                tg = target_stmt.targets[0]
+                pairs = None
+                if isinstance(tg, ast.Name) and isinstance(retval, ast.Name):
+                    pairs = [(tg, retval)]
+                elif isinstance(tg, ast.Tuple) and isinstance(retval, ast.Tuple) and len(tg.elts) == len(retval.elts) \
+                        and all(isinstance(x, ast.Name) for x in tg.elts) and all(isinstance(x, ast.Name) for x in retval.elts):
+                    pairs = list(zip(tg.elts, retval.elts))
+                if pairs:
+                    argnames = {n.id for v in bind.values() for n in ast.walk(v) if isinstance(n, ast.Name)}
+                    bodynames = {n.id for b in out for n in ast.walk(b) if isinstance(n, ast.Name)}
+                    rn = {}
+                    for t_, r_ in pairs:
+                        nstore = sum(1 for b in out for n in ast.walk(b) if isinstance(n, ast.Name) and n.id == r_.id and isinstance(n.ctx, ast.Store))
+                        if r_.id.endswith(tag) and nstore == 1 and t_.id not in argnames and t_.id not in bodynames and r_.id not in rn and t_.id not in rn.values():
+                            rn[r_.id] = t_.id
+                    if len(rn) == len(pairs):
+                        for b in out:
+                            for n in ast.walk(b):
+                                if isinstance(n, ast.Name) and n.id in rn:
+                                    n.id = rn[n.id]
+                        for o in out:
+                            ast.copy_location(o, target_stmt)
+                            ast.fix_missing_locations(o)
+                        return out
+            if kind == "assign" and isinstance(retval, ast.Name) and len(target_stmt.targets) == 1 and isinstance(target_stmt.targets[0], ast.Name) \
+                    and target_stmt.targets[0].id == retval.id:
+                pass        # the result already lives in the target
+            elif kind == "assign":
+                out.append(ast.Assign(targets=target_stmt.targets, value=retval if retval is not None else ast.Constant(value=None)))
+            elif kind == "return":
+                out.append(ast.Return(value=retval))
+            elif retval is not None and not isinstance(retval, (ast.Name, ast.Constant)):
+                out.append(ast.Expr(value=retval))
+            for o in out:
+                ast.copy_location(o, target_stmt)
+                ast.fix_missing_locations(o)
+            return out
+
+        def block(m, cls, g, stmts):
+            out = []
+            for st in stmts:
+                for fld in ("body", "orelse", "finalbody"):
+                    v = getattr(st, fld, None)
+                    if isinstance(v, list) and v and isinstance(v[0], ast.stmt) and not isinstance(st, (ast.FunctionDef, ast.AsyncFunctionDef, ast.ClassDef)):
+                        setattr(st, fld, block(m, cls, g, v))
+                if isinstance(st, ast.Try):
+                    for hnd in st.handlers:
+                        hnd.body = block(m, cls, g, hnd.body)
+                rep_ = None
+                if isinstance(st, ast.Assign) and isinstance(st.value, ast.Call):
+                    rep_ = expand(m, cls, g, st.value, "assign", st)
+                elif isinstance(st, ast.Return) and isinstance(st.value, ast.Call):
+                    rep_ = expand(m, cls, g, st.value, "return", st)
+                elif isinstance(st, ast.Expr) and isinstance(st.value, ast.Call):
+                    rep_ = expand(m, cls, g, st.value, "expr", st)
+                if rep_ is not None:
+                    out.extend(rep_)
+                else:
+                    out.append(st)
+            return out
+
+        for m in self.modules.values():
+            for g in list(m.functions.values()):
+                g.node.body = block(m, None, g, g.node.body)
+            for K in m.classes.values():
+                funcs = list(K.methods.values())
+                for pinfo in K.own_props.values():
+                    funcs += [x for x in (pinfo.getter, pinfo.setter) if x is not None]
+                for g in funcs:
+                    g.node.body = block(m, K, g, g.node.body)
+        self.helpers_inlined = counter[0]
 
     # ------------------------------------------------------------------ defaults
     def _resolve_callee(self, m, cls, call):
